@@ -66,6 +66,25 @@ def serveAll (L : Nat) : Nat → List Req → List Outcome
   | _, [] => []
   | lo, r :: rs => let (o, lo') := serve L lo r; o :: serveAll L lo' rs
 
+/-- two instances stacked on one route (e.g. a global limit `A` and a route-level limit `B`):
+    the inner instance wraps the reader the outer instance installed.  Returns what both pooled
+    readers are left with. -/
+def serveNested (A B : Nat) (loA loB : Nat) (r : Req) : Outcome × Nat × Nat :=
+  if r.declared > (A : Int) then (.rejected, loA, loB)
+  else if r.declared > (B : Int) then (.rejected, 0, loB)   -- the outer reader was Reset and never read
+  else
+    let (endA, seenA) := lrRun A 0 r.under
+    let (endB, seen) := lrRun B 0 seenA
+    (.ran seen, endA, endB)
+
+/-- requests through an application with a global limit `L`; a request tagged `some B` goes to a
+    route that carries a second instance with limit `B` -/
+def serveAllN (L : Nat) : Nat → Nat → List (Option Nat × Req) → List Outcome
+  | _, _, [] => []
+  | loA, loB, (none, r) :: rs => let (o, loA') := serve L loA r; o :: serveAllN L loA' loB rs
+  | loA, loB, (some B, r) :: rs =>
+    let (o, loA', loB') := serveNested L B loA loB r; o :: serveAllN L loA' loB' rs
+
 /-! ## wire -/
 open Wire
 
@@ -93,11 +112,12 @@ def encOutcome : Outcome → List String
   | .rejected => ["0"]
   | .ran seen => "1" :: encList encResp seen
 
-/-- line: `L nreq (declared n (data err)*)*`  →  `nreq (0 | 1 n (data err)*)*`;
-    the requests go through one middleware instance one after the other -/
+/-- line: `L nreq ((0 | 1 B) declared n (data err)*)*`  →  `nreq (0 | 1 n (data err)*)*`;
+    the requests go through one application one after the other (`1 B`: through a route with a
+    second instance of limit `B`) -/
 def runLine (line : String) : String :=
-  match parseLine (do let l ← nat; let rs ← list pReq; pure (l, rs)) line with
+  match parseLine (do let l ← nat; let rs ← list (do let i ← opt nat; let r ← pReq; pure (i, r)); pure (l, rs)) line with
   | none => "bad-op"
-  | some (l, rs) => render (encList encOutcome (serveAll l 0 rs))
+  | some (l, rs) => render (encList encOutcome (serveAllN l 0 0 rs))
 
 end C14
